@@ -184,6 +184,12 @@ has run to its end, before `iter_.Next`, under `if (tmp_ != NULL)` (read off src
 theorem C11_threaded_source_shape :
     Gen.Parse.tpRecycleSites = 1 ∧ Gen.Parse.tpRecycleAfterScan = true ∧ Gen.Parse.tpRecycleGuarded = true := by decide
 
+/-- the factories of src/data.cc have the modelled shape: all three read a "text" split, libsvm / libfm are wrapped in
+`ThreadedParser` (whose transparency is `C11_threaded_parser_transparent`), csv is returned bare, and all pass the same
+positive thread count – which, by `C11_thread_invariant_*`, does not influence the rows -/
+theorem C11_factory_shape :
+    Gen.Parse.factoryTextSplits = 3 ∧ Gen.Parse.factoryThreadedWrappers = 2 ∧ 1 ≤ Gen.Parse.factoryThreads := by decide
+
 /-- non-vacuity: two cells, the first with an empty container in the middle and one at its end; the third `Next`
 crosses into the second cell (one `Recycle`); every block is owned -/
 example :
